@@ -225,6 +225,8 @@ func C11(c *Ctx) {
 	r.Rule("R11.4", "no dropped persistence error: the error results of StateLedger.Commit, PersistExecutionResult, AppendBlock, TruncateBlocks, persistChainMeta, removeJournalsBeforeBlock, RollbackState and RollbackBlockChain are tested at every call site of the ledger / executor / genesis packages, and the failure edge ends in a panic or an error return.")
 	r.Rule("R11.5", "markers mirror fields: wherever a function of the state ledger persists a journal window marker (minHeight / maxHeight, outside a loop) and assigns the corresponding in-memory field (minJnlHeight / maxJnlHeight), both receive the same height; the reopened ledger derives its rollback window from the markers.")
 	r.Rule("R11.6", "the start-up rollback undoes whole journal entries (shared with C12 R12.6): every path through revertJournal reaches the loop over PrevStates and the test of CodeChanged; otherwise the state store reconciled after a crash keeps storage or code of the block that was rolled back.")
+	r.Rule("R11.7", "the start-up rollback finds what it must undo (shared with C12 R12.8): the journal entry type owns its JSON form so that state keys that are not valid UTF-8 (EVM storage slots) survive the stored journal - see R12.8.")
+	c.c12JournalKeys("R11.7")
 	r.NotDecided = append(r.NotDecided, "the set of on-disk states after a crash (leveldb batch atomicity and blockfile repair() are trusted); crash during a rollback (RollbackBlockChain truncates the blockfile before it commits the index batch: reported as information); re-execution equivalence after recovery; the ethdb-backed (complex) state ledger's own commit protocol")
 
 	isStateCommit := func(in ssa.Instruction) bool {
